@@ -194,6 +194,10 @@ func (c *Ctx) c18Emit(cs c18Case) {
 	idx := c18Ints(m.idx)
 	pos := c18V3s(m.pos)
 	c.Emit("c18.holds.closed_mod_merge", c18Join(kp, idx), "true")
+	if len(m.idx) <= 6000 {
+		// one umbrella per merged vertex + connected (quadratic predicate: moderate sizes only)
+		c.Emit("c18.holds.manifold", c18Join(kp, idx), "true")
+	}
 	c.Emit("c18.holds.closed_by_position", c18Join(c18Ints(cls), idx), "true")
 	c.Emit("c18.holds.outward", c18Join(kp, sc, pos, idx), "true")
 	c.Emit("c18.holds.volume", c18Join(kp, sc, pos, idx), "true")
